@@ -926,4 +926,33 @@ def obs_c07(c: Ctx):
             nd.copy_to(t2, deep=True)
             return t2
         observe(node_copy_to, [i], "node.copy_to(deep)", i, True)
+        # copy_to(add_self=False) into a target that already holds a child equal to a DEEPER descendant of the
+        # source node (no collision at the level that is copied): must be carried out
+        kids = st["kids"][i - 1]
+        if kids:
+            kid_dids = {st["did"][k - 1] for k in kids}
+            deeper = [g for k in kids for g in _desc_ids(st, k) if st["did"][g - 1] not in kid_dids]
+            if deeper:
+                g = deeper[0]
+
+                def children_into_populated(nd=nd, g=g):
+                    t2 = type(tree)("target")
+                    gn = c.b.nodes[g]
+                    kw = {"kind": gn.kind} if hasattr(gn, "kind") else {}
+                    pre = t2.add(gn.data, data_id=gn.data_id, **kw)
+                    nd.copy_to(t2, add_self=False, deep=True)
+                    if t2.children[0] is not pre:
+                        raise TypeError("existing child of the target moved")
+                    pre.remove()
+                    return t2
+                observe(children_into_populated, kids, "node.copy_to(add_self=False) into populated target", i, False)
+    return out
+
+
+def _desc_ids(st, x):
+    out, stack = [], list(st["kids"][x - 1])
+    while stack:
+        y = stack.pop()
+        out.append(y)
+        stack.extend(st["kids"][y - 1])
     return out
